@@ -6,7 +6,8 @@ import (
 )
 
 // Prelude is the JavaScript instrumentation library every printed program starts with. The host provides the
-// natives ev(tag, a, ints…), evv(tag, a, int, value), dres(a, id, iterResult), log(k, a) (returns k) and sink(…).
+// natives ev(tag, a, ints…), evv(tag, a, int, value), dres(a, id, iterResult), log(k, a) (returns k), sink(…) and
+// goForOf(iterable, op, at, a, id, thrower) (drives Runtime.ForOf from Go, see GoForOf).
 // The interpreter (interp.go) implements exactly these functions natively; keep the two in step.
 // deep(n, f) only adds n call-stack levels (return() runs one level, callbacks two levels deeper than next()), so that
 // the call-stack-limit sweep can make exactly those calls overflow; it has no other observable effect.
@@ -312,6 +313,8 @@ func (p *printer) stmt(n *Node, d int, labels string) {
 		}
 	case PromiseAll:
 		p.linef(`%sPromise.all(%s).then(function() { ev("PAo", a, %d); }, function(ex) { evv("PAr", a, %d, ex); });`, labels, iterSrc(n), id, id)
+	case GoForOf:
+		p.linef("%sgoForOf(%s, %d, %d, a, %d, function(v) { throw %d; });", labels, iterSrc(n), n.Op, n.At, id, 63000+id)
 	case YieldStar:
 		p.linef(`var _ = ev("Y*", a, %d);`, id)
 		p.linef("%syield* %s;", labels, iterSrc(n))
